@@ -5,6 +5,8 @@ import (
 	"math/big"
 
 	"pgregory.net/rapid"
+
+	"verifharness/internal/gen"
 )
 
 // Opts bounds the program generator.
@@ -57,11 +59,11 @@ type gctx struct {
 }
 
 func (g *gctx) intn(lo, hi int, label string) int {
-	return rapid.IntRange(lo, hi).Draw(g.t, label)
+	return gen.UniformRange(g.t, lo, hi, label)
 }
 
 func (g *gctx) chance(pct int, label string) bool {
-	return rapid.IntRange(0, 99).Draw(g.t, label) < pct
+	return gen.Uniform(g.t, 100, label) < pct
 }
 
 func (g *gctx) pickType(label string) Type {
